@@ -75,7 +75,7 @@ class TLSH(object):
             q1,q2,q3 = self.find_quartiles()
             l = self.bktlen
             nonzero = len(list(filter(None,self.a_bucket[:l])))
-            if (l==48 and nonzero<18) or (nonzero<= l//2):
+            if (l==48 and nonzero<18) or (l!=48 and nonzero<= l//2):
                 return None
             for bi in range(l):
                 bv = self.a_bucket[bi]
